@@ -157,6 +157,17 @@ def lexeme_classes():
     return C
 
 
+def line_classes():
+    """lexemes that run to the end of the line.  OpenQASM 3: `Pragma: '#'? 'pragma' -> EAT_TO_LINE_END`, `AnnotationKeyword: '@' Identifier ->
+    EAT_TO_LINE_END`, `EAT_TO_LINE_END: ~[\r\n]*`, `LineComment: '//' ~[\r\n]*`: neither CR nor LF belongs to the lexeme."""
+    NOTNL = rx.cls(lambda e: z3.And(e != 10, e != 13, z3.UGE(e, 32), z3.ULT(e, 127)))
+    C = {}
+    C["pragma_line"] = (["PRAGMA"], [(9, rx.seq(rx.lit("pragma "), NOTNL, NOTNL)), (10, rx.seq(rx.lit("#pragma "), NOTNL, NOTNL))])
+    C["annotation_line"] = (["ANNOTATION"], [(2, rx.seq(rx.ch("@"), rx.rng("a", "z"))), (5, rx.seq(rx.ch("@"), rx.rng("a", "z"), rx.ch(" "), NOTNL, NOTNL))])
+    C["line_comment"] = ([], [(2, rx.lit("//")), (4, rx.seq(rx.lit("//"), NOTNL, NOTNL))])
+    return C
+
+
 def is_xid_continue(e):
     return _in(e, "XID_Continue")
 
